@@ -107,7 +107,9 @@ def r1_r2_site(ctx, fam, fname):
             good_gate = None
             for c, g in gates:
                 sid, ns = sid_ns_of(g, m, fam, g.func.attr)
-                if sid == t_sid and ns == t_ns:
+                if sid == t_sid and ns == t_ns and good_gate is None:
+                    # the first true test on the path (a repair may test the
+                    # captured verdict again after releasing its lock)
                     good_gate = (c, g)
             key = (T.lineno, 'gate', bool(good_gate))
             if key not in seen:
